@@ -12,12 +12,12 @@ import (
 	"io"
 	"net"
 	"os"
-	"runtime/pprof"
-	"sync"
-	"sync/atomic"
 	"runtime"
+	"runtime/pprof"
 	"strconv"
 	"strings"
+	"sync"
+	"sync/atomic"
 	"time"
 
 	"github.com/samaritan-proxy/samaritan/host"
@@ -63,6 +63,7 @@ type echoBackend struct {
 }
 
 func runC09(line string) string {
+	loadFactor = measureLoad() // the machine's load may have changed since the process started
 	f := strings.Fields(line)
 	proto, sc := f[0], f[1]
 	argn := func(i, d int) int {
